@@ -23,6 +23,7 @@ Inductive roevent :=
 | ORebuilt (id : nat) (o : nat)
 | OHREvent (i : nat) (e : Z) (ok : bool)
 | OHRTick | OHRTimeout
+| ODialled (id : nat)                (* a test hook between the dial's Unlock and what follows saw the dial succeed *)
 | OTimer (id : nat)                  (* the rebuild dial of pool id was seen on the wire: its timer has fired *)
 | OCloseBegin | OCloseEnd
 | OGetStreamR (k : nat) (ok : bool).
@@ -62,15 +63,28 @@ Definition r_accept_one (s : rstate) (oe : roevent) : rstate + Z :=
   match oe with
   | OLost o => if r_enabled s (SessionLost o) then inl (r_step s (SessionLost o)) else inr 20
   | OTimer id => if r_enabled s (TimerFires id) then inl (r_step s (TimerFires id)) else inr 24
-  | ORebuilt id o =>
+  | ODialled id =>
+      (* timer (if not yet), then the critical section with a successful dial *)
       let already := match w_pc (watcher_of s id) with WCompare => true | _ => false end in
       if negb already && negb (r_enabled s (TimerFires id)) then inr 24
       else
         let s1 := if already then s else r_step s (TimerFires id) in
-        if negb (Nat.eqb (w_pool (watcher_of s1 id)) o) then inr 25
-        else
-          let s2 := r_step s1 (Compare id true) in
-          if Nat.eqb (created s2) (S (created s1)) then inl (r_step s2 (Store id)) else inr 26
+        let s2 := r_step s1 (Compare id true) in
+        if Nat.eqb (created s2) (S (created s1)) then inl s2 else inr 26
+  | ORebuilt id o =>
+      match w_pc (watcher_of s id) with
+      | WStore =>                                   (* variant store_late: the dial was seen before *)
+          if Nat.eqb (w_pool (watcher_of s id)) o then inl (r_step s (Store id)) else inr 25
+      | _ =>
+          let already := match w_pc (watcher_of s id) with WCompare => true | _ => false end in
+          if negb already && negb (r_enabled s (TimerFires id)) then inr 24
+          else
+            let s1 := if already then s else r_step s (TimerFires id) in
+            if negb (Nat.eqb (w_pool (watcher_of s1 id)) o) then inr 25
+            else
+              let s2 := r_step s1 (Compare id true) in
+              if Nat.eqb (created s2) (S (created s1)) then inl (r_step s2 (Store id)) else inr 26
+      end
   | OHREvent i e ok => if r_enabled s (HREvent i e ok) then inl (r_step s (HREvent i e ok)) else inr 20
   | OHRTick => if r_enabled s HRTick then inl (r_step s HRTick) else inr 20
   | OHRTimeout => if r_enabled s HRTimeout then inl (r_step s HRTimeout) else inr 20
@@ -121,8 +135,8 @@ Fixpoint r_accept_from (pos : nat) (s : rstate) (h : list (roevent * option robs
 
 (* rc_early: what the harness read from the source of background(): false = the identity check stands after
    the timer receive, in the Lock region of the dial (the shape the theorems are about) *)
-Record rcase := { rc_n : nat; rc_early : bool; rc_hist : list (roevent * option robs) }.
-Definition rc_init (c : rcase) : rstate := r_init_gen close_prog (rc_early c) (rc_n c).
+Record rcase := { rc_n : nat; rc_early : bool; rc_late : bool; rc_hist : list (roevent * option robs) }.
+Definition rc_init (c : rcase) : rstate := r_init_gen close_prog (rc_early c) (rc_late c) (rc_n c).
 
 Definition r_accepts (c : rcase) : option (nat * Z) := r_accept_from 0 (settle (rc_init c)) (rc_hist c).
 
